@@ -32,6 +32,9 @@ var c19Pool = []string{
 	"find all @/(a)(b)(c)(d)\\4\\3\\2\\1/",
 	"find all at least 1 ((letter = c) maybe digit) named items",
 	"find all 'x' at least 0 digit",
+	// statements with an effect outside the result: debug prints
+	"set f to transform debug 'T:' + match debug matchLength return match + '!' end\nreplace all at least 1 letter with f",
+	"set p to pattern at least 1 digit begin debug 'P:' + match return matchLength < 3 end\nfind all p",
 	// compilations that FAIL (in the lexer, the parser, the regex sub-parser, the generator, the type checker) run
 	// concurrently with the others: an error path must leave nothing shared behind either
 	"find all 'unterminated",
